@@ -706,6 +706,24 @@ func enumGenericPLY(r *ev.Run, thorough bool) {
 			cases = append(cases, plyCase{f, es})
 		}
 	}
+	// elements that declare rows but no properties: legal in the text format (each row is an empty line), rejected by
+	// the reader in the binary formats (a row of no bytes cannot be told from no row). Alone, first, last, in the
+	// middle and twice in a row; without rows in every format
+	for f := 0; f < 3; f++ {
+		for _, cnt := range []int{0, 1, 2, 3} {
+			if cnt > 0 && fileformats.PLYFormat(f) != fileformats.PLYFormatASCII {
+				continue
+			}
+			none := elemSpec{cnt, nil}
+			for _, pl := range [][]propSpec{lists1[0], lists1[len(lists1)-1], lists2[7]} {
+				for _, c2 := range []int{0, 2} {
+					x := elemSpec{c2, pl}
+					cases = append(cases, plyCase{f, []elemSpec{none, x}}, plyCase{f, []elemSpec{x, none}}, plyCase{f, []elemSpec{x, none, x}}, plyCase{f, []elemSpec{x, none, none, x}})
+				}
+			}
+			cases = append(cases, plyCase{f, []elemSpec{none}}, plyCase{f, []elemSpec{none, none}})
+		}
+	}
 	ev.Parallel(len(cases), 16, func(i int) { checkGenericPLY(r, cases[i]) })
 	r.Sample(cases[len(cases)/2])
 	r.Set("generic_ply_cases", len(cases))
